@@ -259,8 +259,9 @@ class Key(AbstractKey):
 
     def __getitem__(self, name: NonStrictName) -> Certificate:
         name = Name.to_bytes(name)
-        sql = 'SELECT id, certificate_name, certificate_data, is_default FROM certificates WHERE certificate_name=?'
-        cursor = self.pib.conn.execute(sql, (name,))
+        sql = ('SELECT id, certificate_name, certificate_data, is_default '
+               'FROM certificates WHERE certificate_name=? AND key_id=?')
+        cursor = self.pib.conn.execute(sql, (name, self.row_id))
         data = cursor.fetchone()
         if not data:
             raise KeyError(name)
@@ -358,8 +359,8 @@ class Identity(AbstractIdentity):
 
     def __getitem__(self, name: NonStrictName) -> Key:
         name = Name.to_bytes(name)
-        cursor = self.pib.conn.execute('SELECT id, key_name, key_bits, is_default FROM keys WHERE key_name=?',
-                                       (name,))
+        sql = 'SELECT id, key_name, key_bits, is_default FROM keys WHERE key_name=? AND identity_id=?'
+        cursor = self.pib.conn.execute(sql, (name, self.row_id))
         data = cursor.fetchone()
         if not data:
             raise KeyError(name)
